@@ -1,9 +1,9 @@
 /-
 Driver for the `corefault` family (C20, finding D21): the real scheduler over the observable repository, whose CORE
 repository (below the wrapper and its timer hook) fails a `MarkAsDispatched` transiently — without effect, or AFTER
-taking effect, in which case the wrapper returns the error and never tells the timer hook. The `World` automaton has no
-action for a fault at that layer (its faults sit at the scheduler ↔ observable-repository boundary), so this family is
-monitor-only: the trace is the sched family's, and only the final line is judged here.
+taking effect, in which case the wrapper returns the error and never tells the timer hook (`SAct.markDispatchedCore` in
+the `World` automaton, which the sched family also injects and replays). This family enumerates the small scenarios
+exhaustively and is monitor-only: the trace is the sched family's, and only the final line is judged here.
   coreplan <k1,k2,…>           the faults of the core's MarkAsDispatched calls, in order: - | cb (no effect) | ca (after effect)
   final <now> <n> <tasks…>     the repository when the driver is quiescent: faults have stopped, every failed step was
                                retried, every running work function completed, the clock stands at the horizon `now`
